@@ -27,6 +27,11 @@ mod c01;
 mod c01spec;
 mod c15;
 mod c08;
+#[allow(dead_code)]
+mod encsup;
+mod c14;
+mod c09;
+mod c04;
 
 fn main() {
     let args: Vec<String> = std::env::args().collect();
@@ -55,6 +60,9 @@ fn main() {
         "c01spec" => c01spec::run(tier, seed, out, extra),
         "c15" => c15::run(tier, seed, out, extra),
         "c08" => c08::run(tier, seed, out, extra),
+        "c14" => c14::run(tier, seed, out, extra),
+        "c09" => c09::run(tier, seed, out, extra),
+        "c04" => c04::run(tier, seed, out, extra),
         other => {
             eprintln!("unknown check {other}");
             std::process::exit(2);
